@@ -7,8 +7,8 @@ Follows translate_bytecode.rs: `MonomorphEnv::update`, `Type::subst`,
 `TypeKey::fits_impl_ty` — on a small type language with the shape of `SolvedType`.
 
 `poly 0` plays the role of `Poly(InterfaceSelf)`, `poly (n+1)` of an ordinary type variable.
-The method of the selected implementation is looked up by *name* (N5 repaired); the positional
-lookup of today's code is `methodByPosition`.
+The method of the selected implementation is looked up by *name* (D48, repaired in /repo); the
+positional lookup the code used before that repair is kept as `methodByPosition`.
 -/
 namespace Abra.Mono
 
@@ -120,7 +120,7 @@ def methodByName {ν : Type} [DecidableEq ν] (ifaceMethods : List ν) (implMeth
   | some name => implMethods.findIdx? (· = name)
   | none => none
 
-/-- today's code: `imp.methods[method_index]` -/
+/-- the code before the D48 repair: `imp.methods[method_index]` -/
 def methodByPosition {ν : Type} (implMethods : List ν) (idx : Nat) : Option Nat :=
   if idx < implMethods.length then some idx else none
 
@@ -148,10 +148,17 @@ def methodOfValue {ν : Type} [DecidableEq ν] (ifaceMethods implMethods : List 
 
 /-! ### the monotype component of a label
 
-`{monoty}` in the label hint is the `Display` of the monotype, which names a nominal type by its
-declaration (module-qualified): two types called `Item` in two modules are two different nominal
-ids `n`.  `Ty.code` is that rendering as a prefix code over numbers; `Ty.codeBy short` is the
-rendering that names a nominal type by `short n` instead (e.g. its unqualified name). -/
+What the code does: the label TEXT is `func_name__%{monoty}…__#<counter>`, and `Display for Monotype`
+prints a nominal type by its UNQUALIFIED name (`nominal.name()`), so the text before the counter can
+coincide for two types called `Item` in two modules.  Labels are nevertheless distinct per
+instantiation because (a) `func_map` is keyed by the descriptor `FuncDesc`, whose `overload_ty` holds
+the type itself (a nominal type is identified by its declaration), and (b) `make_label` appends a
+process-wide counter to every new label.
+What the model's code denotes: `Ty.code` is NOT the printed text; it is a prefix code of the
+descriptor's type in which a nominal type contributes its declaration id `n` (two same-named types in
+two modules are two ids).  `Ty.codeBy short` is the coding that identifies a nominal type by
+`short n` instead (e.g. by its unqualified name, which is what a label without the counter and
+keyed by the printed text would amount to). -/
 
 mutual
 def Ty.codeBy (short : Nat → Nat) : Ty → List Nat
